@@ -239,6 +239,21 @@ def case_struct(case):
             gs_, cs_ = _est(ax, f_s, edges, mesh_type="structured", estimator=est)
             gu, cu = _est(grid, f_u, edges, estimator=est)
             r.true("structured mesh == equivalent point list", np.array_equal(cs_, cu) and np.allclose(gs_, gu, rtol=1e-12, atol=1e-14), info={"s": gs_.tolist(), "u": gu.tolist()}, estimator=est, **extra)
+        # axes that are not ascending (descending, irregular, unsorted): the values stay attached to their coordinates
+        for variant in ("descending", "unsorted", "mixed"):
+            axv = []
+            for i_, a_ in enumerate(ax):
+                b_ = np.array([2.5, 0.9, 0.0])[: len(a_)] if variant == "descending" else (np.array([1.0, 2.5, 0.0])[: len(a_)] if variant == "unsorted" else (a_ if i_ % 2 else np.array([2.5, 0.9, 0.0])[: len(a_)]))
+                axv.append(b_)
+            gridv = np.array([g.ravel() for g in np.meshgrid(*axv, indexing="ij")])
+            gs_, cs_ = _est(axv, fld, edges, mesh_type="structured", estimator=est)
+            gu, cu = _est(gridv, fld.ravel(), edges, estimator=est)
+            r.true("structured mesh with non-ascending axes == equivalent point list", np.array_equal(cs_, cu) and np.allclose(gs_, gu, rtol=1e-12, atol=1e-14), info={"s": gs_.tolist(), "u": gu.tolist()}, estimator=est, axes=variant, **extra)
+            if dim == 2:
+                d_ = [[1.0, 0.0], [0.6, 0.8]]
+                gs_, cs_ = _est(axv, fld, edges, mesh_type="structured", estimator=est, direction=d_, angles_tol=0.5)
+                gu, cu = _est(gridv, fld.ravel(), edges, estimator=est, direction=d_, angles_tol=0.5)
+                r.true("structured mesh with non-ascending axes == equivalent point list (directional)", np.array_equal(cs_, cu) and np.allclose(gs_, gu, rtol=1e-12, atol=1e-14), estimator=est, axes=variant, **extra)
         m = np.zeros(shape, dtype=bool)
         m.ravel()[1] = True
         gs_, cs_ = _est(ax, fld, edges, mesh_type="structured", mask=m, estimator=est)
